@@ -80,14 +80,17 @@ DG = {
     "SVC_ZERO": hstrp(T_OPT, 1, OPTS, b"\x00" + hdap(0x11, [0, 3], IP_A)[1:]),
     # a text message whose text octets are no valid UTF-16 (lone surrogate, odd length): as data and inside a REJECT (the handler logs
     # what it rejects / what was rejected)
+    # an option chain that names one option type twice (DeviceID, ChannelID, DeviceID) / (ChannelID, ChannelID)
+    "REG_A_DUPOPT": hstrp(T_OPT, 14, bytes.fromhex("83040001869f84010203040001869f"), rrs(0x03, IP_A)),
+    "OFF_B_DUPOPT": hstrp(T_OPT, 15, bytes.fromhex("840102040103"), rrs(0x01, IP_B)),
     "TMP_BADTEXT": hstrp(0x00, 3, b"", TMP_BADTEXT),
     "REJECT_TMP_BADTEXT": hstrp(T_REJECT, 3, b"", TMP_BADTEXT),
 }
 ACK_BEARING = {"CONNECT_ACK", "CLOSE_ACK", "ACK", "ACK_OPT"}
-DATA = {"REG_A", "REG_B", "OFF_A", "OFF_B", "STATUS_A", "RCP_NOOPT", "RCP_OPT", "REG_A_SNFFFF", "REG_A_RTP", "OFF_A_RTP_ONLY", "REG_B_XPT", "TMP_BADTEXT"}
+DATA = {"REG_A", "REG_B", "OFF_A", "OFF_B", "STATUS_A", "RCP_NOOPT", "RCP_OPT", "REG_A_SNFFFF", "REG_A_RTP", "OFF_A_RTP_ONLY", "REG_B_XPT", "TMP_BADTEXT", "REG_A_DUPOPT", "OFF_B_DUPOPT"}
 MALFORMED = {"TRUNC5", "TRUNC_PAYLOAD", "BADMAGIC", "UNKOPT", "UNKSVC", "SVC_TP", "SVC_DDS", "SVC_ZERO"}
-REG_IP = {"REG_A": IP_A, "REG_B": IP_B, "REG_A_SNFFFF": IP_A, "REG_A_RTP": IP_A, "REG_B_XPT": IP_B}
-OFF_IP = {"OFF_A": IP_A, "OFF_B": IP_B, "OFF_A_RTP_ONLY": IP_A}
+REG_IP = {"REG_A_DUPOPT": IP_A, "REG_A": IP_A, "REG_B": IP_B, "REG_A_SNFFFF": IP_A, "REG_A_RTP": IP_A, "REG_B_XPT": IP_B}
+OFF_IP = {"OFF_B_DUPOPT": IP_B, "OFF_A": IP_A, "OFF_B": IP_B, "OFF_A_RTP_ONLY": IP_A}
 
 
 def ip_str(b):
